@@ -142,8 +142,39 @@ def sbt_cases():
     if not f.exists():
         return []
     base = geo.example_text(f)
-    return [('sbt:grants-exceed-cost', base + '\nOne-time Grants Etc, 1000\nTotal O&M Cost, 50\nTotal Capital Cost, 100\n'),
+    return [('sbt:grants-exceed-cost', base + '\nOne-time Grants Etc, 1000\nTotal O&M Cost, 50\nTotal Capital Cost, 100\nDiscount Initial Year Cashflow, True\n'),
             ('sbt:example', base + '\nConstruction Years, 2\n')]
+
+
+def sbt_twin(chk: core.Check) -> bool:
+    """SBTEconomics.Calculate repeats the tail of Economics.Calculate (price models, revenue, cash-flow assembly, financial metrics, payback).
+    SBT runs are slow, so the grid does not exercise them; instead the two statement tails are compared as syntax trees on every run: from the
+    first price-model statement to the end they must be the same statements (the job-count line of Economics aside).  A difference is a broken
+    tie — the SBT runs then look for a failing input.  (Defects F29 / F30 were such differences on the pinned tree.)"""
+    import ast
+    import difflib
+
+    def tail(rel, cls):
+        t = ast.parse((core.SRC / 'geophires_x' / rel).read_text())
+        c = next(n for n in t.body if isinstance(n, ast.ClassDef) and n.name == cls)
+        m = next(n for n in c.body if isinstance(n, ast.FunctionDef) and n.name == 'Calculate')
+        src = [ast.unparse(s_) for s_ in m.body]
+        k = next(i for i, s_ in enumerate(src) if 'BuildPTCModel' in s_ or 'ElecPrice' in s_)
+        return [ln for s_ in src[k:] for ln in s_.splitlines() if 'jobs_created' not in ln]
+
+    try:
+        a, b = tail('Economics.py', 'Economics'), tail('SBTEconomics.py', 'SBTEconomics')
+    except (StopIteration, OSError, SyntaxError) as e:
+        chk.broken('C04/sbt-twin/unreadable', f'the tails of Economics.Calculate / SBTEconomics.Calculate could not be compared: {e}', {}, 'correspondence-break')
+        return False
+    diff = [ln for ln in difflib.unified_diff(a, b, 'Economics.Calculate', 'SBTEconomics.Calculate', lineterm='', n=0) if not ln.startswith(('---', '+++', '@@'))]
+    chk.coverage['sbt_twin_statements_compared'] = len(a)
+    chk.case(('sbt-twin', len(a)), True)
+    chk.tag('sbt-twin/' + ('same' if not diff else 'differs'))
+    if diff:
+        chk.broken('C04/sbt-twin/differs', 'the revenue / cash-flow / metrics tail of SBTEconomics.Calculate is not the one of Economics.Calculate that the model and the theorems describe',
+                   {'differences': diff[:12]}, 'correspondence-break')
+    return not diff
 
 
 def exact_zero_cases():
@@ -344,7 +375,8 @@ def run(chk: core.Check) -> int:
     chk.trusted.append('tools/py2lean.py (Python subset -> Lean: assignments, list item assignment with Python index semantics, for-range loops, if; floats read as exact rationals)')
     clean = chk.prove(['GeoVerif.Properties.C04'])
     quick = chk.tier == 'quick'
-    evaluate(chk, gen_cases(chk.rng, 400 if quick else 4000) + (sbt_cases()[:1] if quick else sbt_cases()))
+    twin = sbt_twin(chk)
+    evaluate(chk, gen_cases(chk.rng, 400 if quick else 4000) + (sbt_cases()[:1] if quick and twin else sbt_cases()))
     if (not clean or chk.breaks) and not chk.failures:
         evaluate(chk, gen_cases(chk.rng, 1500))
     chk.assumptions += ['IRR is an observed value (numpy_financial root finder): the clause "non-zero IRR zeroes the NPV" is checked at 1e-6 of the sum of absolute discounted terms; for conventional cash flows (tagged) C04.irr_unique shows that rate is the only one above -100 %',
